@@ -28,8 +28,8 @@ class C02(C01):
             pk = [p for (_, p) in T.PACKET_ALPHABET[:9]] if quick else [p for (_, p) in T.PACKET_ALPHABET]
             steps = [0, 1, tm - 1, tm, tm + 1] if quick else T.time_steps(tm)
             for k in range(0, L + 1):
-                for combo in itertools.product(itertools.product(steps, (0, 0, 1) if not quick else (0, 1), pk), repeat=k):
-                    if quick and k == 2 and rng.random() < 0.75:
+                for combo in itertools.product(itertools.product(steps, (0, 0, 1, 2) if not quick else (0, 1, 2), pk), repeat=k):
+                    if quick and k == 2 and rng.random() < 0.9:
                         continue
                     t = 0
                     ev = []
@@ -37,7 +37,7 @@ class C02(C01):
                         t += dt
                         ev.append((t, a, p))
                     yield T.mk_case(content, [], options=options, default_tmo=tmo_s, retries=retries, events=ev)
-        for _ in range(1500 if quick else 20000):
+        for _ in range(1000 if quick else 20000):
             retries = rng.choice([0, 1, 2, 3])
             tmo_s = rng.choice([1, 2, 5])
             tm = tmo_s * T.TICKS
@@ -48,7 +48,7 @@ class C02(C01):
             ev = []
             for _k in range(rng.randrange(0, 12)):
                 t += rng.choice(T.time_steps(tm) + [0, 0, 3])
-                ev.append((t, 0 if rng.random() < 0.85 else 1, rng.choice(T.PACKET_ALPHABET)[1]))
+                ev.append((t, 0 if rng.random() < 0.8 else rng.choice([1, 2, 3]), rng.choice(T.PACKET_ALPHABET)[1]))
             yield T.mk_case(bytes(i % 251 for i in range(n)), [], options=options, default_tmo=dflt,
                             retries=retries, events=ev)
         for _ in range(200 if quick else 3000):
